@@ -12,10 +12,39 @@ def R1 (inp : RunInput) (n : Name) : Prop :=
 /-- `select_task(n)` answered `True`: both passes are through, the outcome of `n` is what its actions do -/
 def GoOK (inp : RunInput) (n : Name) : Prop :=
   ∃ (dd : Name → Den) (L : List Name), (∀ x, x ∈ L ↔ DepOf inp dd n x) ∧ (∀ d ∈ L, DenOf inp d (dd d)) ∧
-    stage1L inp dd L n = .run ∧ (∀ d ∈ inp.setup n, DenOf inp d (dd d)) ∧ stage2 inp dd n = resDen (inp.outcome n)
+    stage1L inp dd L n = .run ∧ (∀ d ∈ inp.setup n, DenOf inp d (dd d)) ∧ stage2 inp dd n = resDen (inp.outcome n) ∧
+    inp.argsOk n = true
+
+theorem selDecision_go_args {inp : RunInput} {n : Name} {nd : Node} (h : selDecision inp n nd = .go) :
+    inp.argsOk n = true := by
+  unfold selDecision at h
+  repeat' split at h
+  all_goals first | assumption | cases h
+
+theorem selDecision_argsErr {inp : RunInput} {n : Name} {nd : Node} (h : selDecision inp n nd = .argsErr) :
+    inp.argsOk n = false := by
+  unfold selDecision at h
+  repeat' split at h
+  all_goals first | (rename_i hh; simpa using hh) | cases h
+
+theorem selDecision_depErr {inp : RunInput} {n : Name} {nd : Node} (h : selDecision inp n nd = .depErr) :
+    inp.statusOf n = .error := by
+  unfold selDecision at h
+  repeat' split at h
+  all_goals first | assumption | cases h
+
+theorem stage1L_run_status {inp : RunInput} {dd : Name → Den} {L : List Name} {n : Name}
+    (h : stage1L inp dd L n = .run) : inp.statusOf n ≠ .error := by
+  unfold stage1L at h
+  repeat' split at h
+  all_goals first | assumption | cases h
+
+theorem GoOK.args {inp : RunInput} {n : Name} (h : GoOK inp n) : inp.argsOk n = true ∧ inp.statusOf n ≠ .error := by
+  obtain ⟨dd, L, _, _, h1, _, _, ha⟩ := h
+  exact ⟨ha, stage1L_run_status h1⟩
 
 theorem GoOK.den {inp : RunInput} {n : Name} (h : GoOK inp n) : DenOf inp n (resDen (inp.outcome n)) := by
-  obtain ⟨dd, L, hL, hT, h1, hS, h2⟩ := h
+  obtain ⟨dd, L, hL, hT, h1, hS, h2, _⟩ := h
   have := DenOf.mk n dd L hL hT (fun _ => hS)
   have e : combineL inp dd L n = resDen (inp.outcome n) := by simp only [combineL, h1]; exact h2
   rwa [e] at this
